@@ -220,6 +220,15 @@ def run_unit(unit) -> UnitResult:
                 terms.append(R.term(rep.genotype_to_phenotype(gt)))
                 for _ in range(3):
                     shared.randint(0, 9)
+                if rep_kind in ("ge", "sge") and getattr(rep, "decider", None) is not None:
+                    # the representation's decider object is also used directly in between (a tree representation
+                    # sharing it builds a tree): whatever state that leaves on the object must not reach the next mapping
+                    from geneticengine.representations.tree.treebased import TreeBasedRepresentation as _T
+
+                    try:
+                        _T(ctx.g, rep.decider).create_genotype(shared)
+                    except Exception:  # noqa
+                        pass
                 terms.append(R.term(rep.genotype_to_phenotype(gt)))
                 shared2 = NativeRandomSource(unit["seed"] + 1)
                 if rep_kind == "dsge":
@@ -264,6 +273,34 @@ def run_unit(unit) -> UnitResult:
                                               f"{ctx.spec['name']}: a genotype mapped to {_show(t0)[:80]} through the grammar object used all along and to "
                                               f"{_show(t2)[:80]} through a freshly extracted grammar of the same classes"))
                     break
+        # (C'') weighted grammars: after a (successful) weight update on the grammar object, the representation that was
+        # built before it and one built afterwards over the same grammar map every genotype to the same program
+        if any(p[2] is not None for p in ctx.spec.get("prods", [])) and rep_kind != "dsge":
+            rep_old = mk(ExhaustiveSource(()))
+            try:
+                ctx.g.update_weights(0.7, {n: (1.0 if k % 2 else 0.2) for k, n in enumerate(ctx.g.all_nodes)})
+                updated = True
+            except Exception:  # noqa
+                updated = False
+            if updated:
+                for gt in gts:
+                    def m(rep_x, gt=gt):
+                        try:
+                            return R.term(rep_x.genotype_to_phenotype(gt))
+                        except HorizonExceeded:
+                            return ("<horizon>",)
+                        except Exception as e:  # noqa
+                            return ("exc", type(e).__name__)
+
+                    t_old, t_new = m(rep_old), m(mk(ExhaustiveSource(())))
+                    r.executions += 2
+                    r.count("mapped_after_a_weight_update")
+                    if t_old != t_new:
+                        r.add_violation(Violation(PROP, site, "mapping-depends-on-when-the-representation-was-built", {"rep": rep_kind, "decider": unit["decider"]},
+                                                  {"unit": P.clean_unit(unit), "genotype": repr(genotype_snapshot(gt))[:300]},
+                                                  f"{ctx.spec['name']}: after grammar.update_weights, the representation built before it maps a genotype to "
+                                                  f"{_show(t_old)[:80]}, one built afterwards over the same grammar to {_show(t_new)[:80]}"))
+                        break
         # (D) dynamic SGE only: genotypes that are NOT fully populated (crossover children hold empty or short gene lists for
         # symbols one parent never read; mutants differ in one gene): the first mapping may extend them from the shared
         # source, after that the genotype is complete -- every later mapping gives the same program and draws nothing
